@@ -352,6 +352,14 @@ func init() {
 			out = append(out, mk(st, v, 0))
 			return out
 		},
+		// UF9: uninterpreted integer-valued function of nine floats (oracle for exact predicates)
+		"UF9": func(x *Exec, st *State, fr *Frame, args []Value, site ssa.Instruction) []Result {
+			var ts []*Term
+			for _, a := range args[2:] {
+				ts = append(ts, a.(*Term))
+			}
+			return ret1(st, x.tf.UF("uf_"+strArg(args[1]), SBV(64), ts...))
+		},
 		"Stream": func(x *Exec, st *State, fr *Frame, args []Value, site ssa.Instruction) []Result {
 			return ret1(st, &SliceV{})
 		},
